@@ -34,25 +34,30 @@ inline FileCase decodeFileCase(Tape& t, Run& run, bool allowCorpus = true) {
 	auto& types = registeredTypes();
 	uint8_t domByte = t.u8();
 	uint8_t dom = domByte >= 0xF0 ? 3 : domByte % 3;
-	if (dom == 1 && !allowCorpus)
-		dom = 0;
 	if (dom == 1) {
-		auto& cp = corpus(run.args.corpus);
-		if (cp.empty()) {
-			c.why = "corpus missing";
+		// the 26 samples are enumerated anyway: only index bytes below 52 select one, the others go on
+		// as a synthesised single subject (keeps the random phase from spending a third of its cases here)
+		uint8_t ib = t.u8();
+		if (ib >= 52 || !allowCorpus)
+			dom = 0;
+		else {
+			auto& cp = corpus(run.args.corpus);
+			if (cp.empty()) {
+				c.why = "corpus missing";
+				return c;
+			}
+			size_t i = ib % cp.size();
+			c.kind = "corpus";
+			c.label = cp[i].name;
+			c.bytes = cp[i].bytes;
+			auto mf = mini::parse(c.bytes);
+			c.version = mf.ver.tag();
+			c.ok = true;
+			c.populated = true;
+			c.hash = fnv1a(c.bytes);
+			c.payloadSize = c.bytes.size();
 			return c;
 		}
-		size_t i = t.u8() % cp.size();
-		c.kind = "corpus";
-		c.label = cp[i].name;
-		c.bytes = cp[i].bytes;
-		auto mf = mini::parse(c.bytes);
-		c.version = mf.ver.tag();
-		c.ok = true;
-		c.populated = true;
-		c.hash = fnv1a(c.bytes);
-		c.payloadSize = c.bytes.size();
-		return c;
 	}
 	if (dom == 0 || dom == 3) {
 		size_t ti = t.u16() % types.size();
